@@ -445,15 +445,23 @@ func runStructOf(c *Ctx) {
 			c.R.Func(name)
 			list := ci.Common().Args[0]
 			n := 0
-			for _, ap := range appendSites(f, list) {
-				for _, lit := range c.appendedStructFieldLits(ap) {
-					n++
-					key := fmt.Sprintf("%s|field#%d", name, n)
-					nameV := lit.fields["Name"]
-					cls, ok := c.classifyFieldNameIn(lit.fn, f, nameV, ap, lit.env)
-					c.R.Add("STRUCTOF", key+"|"+cls, name, p.InstrPos(ap), ok,
-						"every field name handed to reflect.StructOf is a constant, an index-formatted name with a growing counter, or a projection that is provably unique (duplicate → error)",
-						ternary(ok, cls, "field name "+core.Path(nameV)+": "+cls))
+			lists := c.fieldLists(f, list)
+			seenAp := map[*ssa.Call]bool{}
+			for _, li := range lists {
+				for _, ap := range appendSites(li.fn, li.list) {
+					if seenAp[ap] {
+						continue
+					}
+					seenAp[ap] = true
+					for _, lit := range c.appendedStructFieldLits(ap) {
+						n++
+						key := fmt.Sprintf("%s|field#%d", name, n)
+						nameV := lit.fields["Name"]
+						cls, ok := c.classifyFieldNameIn(lit.fn, li.fn, nameV, ap, lit.env)
+						c.R.Add("STRUCTOF", key+"|"+cls, name, p.InstrPos(ap), ok,
+							"every field name handed to reflect.StructOf is a constant, an index-formatted name with a growing counter, or a projection that is provably unique (duplicate → error)",
+							ternary(ok, cls, "field name "+core.Path(nameV)+": "+cls))
+					}
 				}
 			}
 			if n == 0 {
@@ -461,6 +469,42 @@ func runStructOf(c *Ctx) {
 			}
 		}
 	}
+}
+
+// listIn: a slice value and the function it is built in.
+type listIn struct {
+	fn   *ssa.Function
+	list ssa.Value
+}
+
+// fieldLists: the field list handed to StructOf is built in f itself, or by a private helper whose result is handed
+// over; returns the list value(s) together with the function that appends to them.
+func (c *Ctx) fieldLists(f *ssa.Function, list ssa.Value) []listIn {
+	p := c.P
+	lists := []listIn{{f, list}}
+	var hc *ssa.Call
+	idx := 0
+	switch x := list.(type) {
+	case *ssa.Call:
+		hc = x
+	case *ssa.Extract:
+		hc, _ = x.Tuple.(*ssa.Call)
+		idx = x.Index
+	}
+	if hc != nil {
+		if h := hc.Common().StaticCallee(); p.PrivateHelper(h) {
+			lists = nil
+			c.R.Func(core.FuncName(h))
+			for _, r := range core.Returns(h) {
+				for _, o := range core.ReturnOperand(r, idx) {
+					if !core.IsNilConst(o) {
+						lists = append(lists, listIn{h, o})
+					}
+				}
+			}
+		}
+	}
+	return lists
 }
 
 // sfLit is one reflect.StructField literal that reaches a field list: its field stores, the function the
